@@ -63,6 +63,13 @@ impl CopyHandle {
             return Err(XcpError::InvalidDestination("Not writing through a dangling symlink.").into());
         }
 
+        // Like cp, never put a file where a directory is: with
+        // backups enabled the whole directory would be renamed away
+        // (without them the create fails anyway).
+        if exists && to.symlink_metadata()?.is_dir() {
+            return Err(XcpError::InvalidDestination("Cannot overwrite a directory with a non-directory.").into());
+        }
+
         // Choosing a backup number (a directory scan), moving the old
         // file away and creating the new one are one step: another
         // worker doing the same for a neighbouring name (say `f.~1~`
